@@ -42,7 +42,7 @@ def prodWakePc : Pc → Bool
 
 def sawEmpty (t : Thread) : Bool :=
   match t.pc with
-  | .nRelErr .get => t.x == .empty
+  | .nRelErr c => c == .get && t.x == .empty
   | .gWait | .bWait => true
   | _ => false
 
@@ -56,7 +56,7 @@ def activeC (t : Thread) : Bool :=
   match t.pc with
   | .start => isCons t
   | .nAcq _ | .nGet _ | .nEmp _ | .nNaOk _ | .nRelOk _ => true
-  | .nRelErr .batch => t.x == .empty
+  | .nRelErr c => c == .batch && t.x == .empty
   | .gAcq | .gR0 | .gR1 | .gR2 | .gR3 | .gR4 | .gRet => true
   | .bAcq | .bR0 | .bR1 | .bR2 | .bR3 | .bR4 | .bEmp | .bExit | .bE1 | .bE2 | .bE3 => true
   | _ => false
@@ -75,7 +75,7 @@ def debtDAll (t : Thread) : Bool :=
 def debtE (t : Thread) : Bool :=
   match t.pc with
   | .nEmp _ | .nNaOk _ | .nRelOk _ | .gR0 | .gR1 | .gR2 => true
-  | .nAcq .batch | .nGet .batch | .nNaErr .batch | .nRelErr .batch
+  | .nAcq c | .nGet c | .nNaErr c | .nRelErr c => c == .batch && !t.result.isEmpty
   | .bExit | .bE1 | .bE2 | .bR0 | .bR1 | .bR2 => !t.result.isEmpty
   | _ => false
 
